@@ -851,6 +851,56 @@ def rule_mut_self(text, dropped):
     return text
 
 
+def _scrutinee_head(toks, match, r0, call_close):
+    """If the expression starting at token r0 (ending at call_close) lies in the head of a `for .. in EXPR {`, `match EXPR {`,
+    `if let P = EXPR {` or `while let P = EXPR {`, return (keyword, index of the keyword token, index of the `{` that opens
+    the loop body / the arms / the then-block); else None."""
+    rev = {v: k for k, v in match.items()}
+    k = r0 - 1
+    kw = None
+    while k >= 0:
+        t = toks[k]
+        if t.text in CLOSE and k in rev:
+            if t.text == '}':
+                return None
+            k = rev[k] - 1
+            continue
+        if t.text in OPEN or t.text == ';':
+            return None
+        if t.kind == 'ident' and t.text == 'match':
+            kw = ('match', k)
+            break
+        if t.kind == 'ident' and t.text == 'in':
+            j = k - 1
+            while j >= 0 and not (toks[j].kind == 'ident' and toks[j].text == 'for'):
+                if toks[j].text in (';', '{', '}'):
+                    return None
+                j -= 1
+            if j < 0:
+                return None
+            kw = ('for', j)
+            break
+        if t.kind == 'ident' and t.text == 'let' and k >= 1 and toks[k - 1].kind == 'ident' and toks[k - 1].text in ('if', 'while'):
+            kw = (toks[k - 1].text, k - 1)
+            break
+        k -= 1
+    if kw is None:
+        return None
+    # forward: the first `{` at depth 0 after the call
+    j = call_close + 1
+    while j < len(toks):
+        t = toks[j]
+        if t.text == '{':
+            return kw[0], kw[1], j
+        if t.text in ('(', '['):
+            j = match[j] + 1
+            continue
+        if t.text in (';', '}', ')', ']'):
+            return None
+        j += 1
+    return None
+
+
 def rule_lock_scope(text, dropped):
     """Make the lifetime of a shard-lock guard explicit and count it in the ghost variable `verif_locks`.
        `RECV.write().with(|mut NAME| BODY)`  ->  `{ let mut NAME = RECV.verif_lock_write(); proof { verif_locks = verif_locks + 1; }
@@ -899,6 +949,23 @@ def rule_lock_scope(text, dropped):
             meth = toks[i + 5].text
             args = text[toks[call_open].s:toks[call_close].e]
             m = 'mut ' if kind == 'write' else ''
+            head = _scrutinee_head(toks, match, r0, call_close)
+            if head is not None:
+                # the temporary guard sits in the iterator expression of a `for`, the scrutinee of a `match` or of an
+                # `if let` / `while let`: temporaries of these live until the END of the loop / match / then-block
+                kw, kw_tok, blk_open = head
+                blk_close = match[blk_open]
+                if kw in ('if', 'while') and blk_close + 1 < len(toks) and toks[blk_close + 1].text == 'else':
+                    raise SliceError('lock-scope: a lock guard temporary in an `if let .. else` scrutinee is not supported')
+                gname = f'verif_guard{n}'
+                pre = f'{{ let {m}{gname} = {recv}.verif_lock_{kind}();{inc}'
+                a, b, c, e = toks[kw_tok].s, toks[r0].s, toks[i + 4].s, toks[blk_close].e
+                if kw in ('for', 'while'):
+                    text = text[:a] + pre + text[a:b] + gname + text[c:e] + dec + '}' + text[e:]
+                else:
+                    text = text[:a] + pre + 'let verif_with_r = ' + text[a:b] + gname + text[c:e] + ';' + dec + 'verif_with_r }' + text[e:]
+                n += 1
+                continue
             new = (f'{{ let {m}verif_guard = {recv}.verif_lock_{kind}();{inc}let verif_with_r = verif_guard.{meth}{args};{dec}verif_with_r }}')
         old = text[toks[r0].s:toks[call_close].e]
         d = old.count('\n') - new.count('\n')
